@@ -11,6 +11,16 @@ import (
 
 func init() { checks["C18"] = checkC18 }
 
+// safeAppendFloat: appendFloat under recover (a panic is reported as an error text)
+func safeAppendFloat(f float64) (out []byte, err error) {
+	defer func() {
+		if r := recover(); r != nil {
+			out, err = nil, fmt.Errorf("PANIC: %v", r)
+		}
+	}()
+	return simdjson.VerifAppendFloat(nil, f)
+}
+
 func checkC18(c *Ctx) {
 	r := c.Rng
 	c.Ev.Coverage.Rule = "finite float64 bit patterns printed by appendFloat (through Iter.MarshalJSON after SetFloat, StringCvt, and directly) compared with (1) the Coq model: shortest round-tripping digits BY SPECIFICATION (search over digit counts with exact integer arithmetic and the correctly rounding parser) + the ES6 format layer, (2) encoding/json byte for byte, (3) ParseFloat(output) == input. Streams: uniformly random patterns; every binade (min, max, random); all subnormal exponents; every power of ten 1e-323..1e308 with both neighbours; integers < 2^63 times powers of ten; values at and next to 1e-6 and 1e21; for every row of the 696-row powers-of-ten table floats whose shortest conversion uses that decimal exponent. non-trivial = finite pattern; distinct = by bit pattern"
@@ -86,7 +96,7 @@ func checkC18(c *Ctx) {
 				b |= 1 << 63
 			}
 			f := math.Float64frombits(b)
-			got, err := simdjson.VerifAppendFloat(nil, f)
+			got, err := safeAppendFloat(f)
 			ej, _ := json.Marshal(f)
 			ndense++
 			if err != nil || string(got) != string(ej) {
@@ -125,7 +135,7 @@ func checkC18(c *Ctx) {
 					f = -f
 				}
 				b := math.Float64bits(f)
-				got, err := simdjson.VerifAppendFloat(nil, f)
+				got, err := safeAppendFloat(f)
 				ej, _ := json.Marshal(f)
 				nshort++
 				if k < 1 {
@@ -158,15 +168,25 @@ func checkC18(c *Ctx) {
 	}
 	for i, b := range bits {
 		f := math.Float64frombits(b)
-		direct, derr := simdjson.VerifAppendFloat(nil, f)
+		direct, derr := safeAppendFloat(f)
 		ai := iterAt(out.PJ, 2)
 		arr, _ := ai.Array(nil)
 		ait := arr.Iter()
 		var it simdjson.Iter
 		ait.AdvanceIter(&it)
 		it.SetFloat(f)
-		mj, merr := it.MarshalJSON()
-		sc, serr := it.StringCvt()
+		var mj []byte
+		var sc string
+		var merr, serr error
+		func() {
+			defer func() {
+				if r := recover(); r != nil {
+					merr = fmt.Errorf("PANIC: %v", r)
+				}
+			}()
+			mj, merr = it.MarshalJSON()
+			sc, serr = it.StringCvt()
+		}()
 		ej, _ := json.Marshal(f)
 		info := map[string]interface{}{"lit": fmt.Sprintf("bits=%016x value=%v", b, f), "impl": string(direct), "marshal": string(mj), "stringcvt": sc, "encoding_json": string(ej), "model": ans[i]}
 		c.Ev.Count("float", []byte(reqs[i]), true)
